@@ -640,6 +640,79 @@ Proof.
   rewrite H1, H2. cbn [N.eqb negb option_map]. rewrite <- Hl, firstn_all. apply cbor_eqb_refl.
 Qed.
 
+(** ... and every [u128] the serialiser can be given: below 2^64 an integer, from 2^64 on a
+    bignum (tag 2) with the shortest big-endian byte string *)
+Lemma be_bytes_hd k : forall n, hd 0 (be_bytes (S k) n) = (n / 256 ^ N.of_nat k) mod 256.
+Proof.
+  induction k as [|k IH]; intros n.
+  - cbn. rewrite N.div_1_r. reflexivity.
+  - rewrite be_bytes_S. specialize (IH (n / 256)).
+    destruct (be_bytes (S k) (n / 256)) as [|x l] eqn:E.
+    + pose proof (be_bytes_length (S k) (n / 256)) as L. rewrite E in L. discriminate.
+    + cbn [app hd] in *. rewrite IH. rewrite N.div_div by lia.
+      replace (256 * 256 ^ N.of_nat k) with (256 ^ N.of_nat (S k)); [reflexivity|].
+      rewrite Nat2N.inj_succ, N.pow_succ_r'. reflexivity.
+Qed.
+
+Lemma pow256 x : 256 ^ x = 2 ^ (8 * x).
+Proof. rewrite N.pow_mul_r. reflexivity. Qed.
+
+Lemma min_be_props n : 0 < n ->
+  be_val 0 (min_be n) = n /\ (hd 0 (min_be n) =? 0) = false
+  /\ length (min_be n) = N.to_nat (N.log2 n / 8 + 1).
+Proof.
+  intros Hn. unfold min_be. set (q := N.log2 n / 8).
+  assert (Hq : 8 * q <= N.log2 n < 8 * q + 8).
+  { unfold q. pose proof (N.div_mod (N.log2 n) 8 ltac:(lia)). pose proof (N.mod_lt (N.log2 n) 8 ltac:(lia)). lia. }
+  destruct (N.log2_spec n Hn) as [Hlo Hhi].
+  assert (Hlow : 256 ^ q <= n).
+  { rewrite pow256. eapply N.le_trans; [|exact Hlo]. apply N.pow_le_mono_r; lia. }
+  assert (Hup : n < 256 ^ (q + 1)).
+  { rewrite pow256. eapply N.lt_le_trans; [exact Hhi|]. apply N.pow_le_mono_r; lia. }
+  replace (N.to_nat (q + 1)) with (S (N.to_nat q)) by lia.
+  split; [|split].
+  - apply be_round. replace (N.of_nat (S (N.to_nat q))) with (q + 1) by lia. exact Hup.
+  - rewrite be_bytes_hd. rewrite N2Nat.id.
+    assert (Hp : 0 < 256 ^ q) by (apply N.neq_0_lt_0; apply N.pow_nonzero; lia).
+    assert (1 <= n / 256 ^ q) by (apply N.div_le_lower_bound; lia).
+    assert (n / 256 ^ q < 256).
+    { apply N.div_lt_upper_bound; [lia|]. rewrite N.add_1_r, N.pow_succ_r' in Hup. lia. }
+    rewrite N.mod_small by assumption. apply N.eqb_neq. lia.
+  - apply be_bytes_length.
+Qed.
+
+Theorem ser_u128_canonical z : (0 < z < TWO128)%Z -> de_nzu128 (ser_u128 z) = Some (ser_u128 z).
+Proof.
+  intros Hz. unfold ser_u128 at 1. destruct (Z.ltb_spec z (Z.of_N TWO64)) as [Hlt|Hge].
+  - unfold de_nzu128. cbn [int_value].
+    replace (0 <? z)%Z with true by lia. replace (z <? TWO128)%Z with true by lia. reflexivity.
+  - set (n := Z.to_N z). assert (Hn : 0 < n) by lia.
+    destruct (min_be_props n Hn) as [Hv [Hh Hl]].
+    unfold de_nzu128. cbn [int_value]. cbn [N.eqb Pos.eqb orb].
+    rewrite (strip_zeros_id _ Hh).
+    assert (Hlen : (length (min_be n) <=? 16)%nat = true).
+    { apply Nat.leb_le. rewrite Hl.
+      assert (N.log2 n < 128).
+      { apply N.log2_lt_pow2; [exact Hn|]. unfold TWO128 in Hz. lia. }
+      assert (N.log2 n / 8 < 16) by (apply N.div_lt_upper_bound; lia). lia. }
+    rewrite Hlen, Hv. unfold n. rewrite Z2N.id by lia.
+    replace (0 <? z)%Z with true by lia. replace (z <? TWO128)%Z with true by lia. reflexivity.
+Qed.
+
+Corollary u128_wt z : (0 < z < TWO128)%Z -> wt KNzU128 (ser_u128 z) = true.
+Proof. intros Hz. cbn [wt]. rewrite ser_u128_canonical by exact Hz. apply cbor_eqb_refl. Qed.
+
+(** ** on the bytes: an entry with an unknown key anywhere in an encoded message is ignored *)
+Theorem msg_bytes_insert_unknown fs es1 es2 k v :
+  classify IntKeys (map fst fs) k = Some IdUnknown ->
+  cbor_wf (CMap (es1 ++ (k, v) :: es2)) = true -> (depth (CMap (es1 ++ (k, v) :: es2)) < cbor_fuel)%nat ->
+  cbor_wf (CMap (es1 ++ es2)) = true -> (depth (CMap (es1 ++ es2)) < cbor_fuel)%nat ->
+  de_msg fs (cbor_encode (CMap (es1 ++ (k, v) :: es2))) = de_msg fs (cbor_encode (CMap (es1 ++ es2))).
+Proof.
+  intros Hk W1 D1 W2 D2. unfold de_msg. rewrite !decode_encode_read by assumption.
+  apply msg_insert_unknown. exact Hk.
+Qed.
+
 (** * Part P: the generated schemas against the specification *)
 Import String.
 Local Open Scope string_scope.
